@@ -281,13 +281,26 @@ class Formula(Harness):
         return 'H' + ''.join(chr(int(inputs['c%d' % i])) for i in range(n))
 
     def native(self, inputs, label):
-        return [{'mode': 'query', 'text': self._text(inputs)}]
+        m = Fraction(inputs['molar_mass'])
+        return [{'mode': 'formula', 'text': self._text(inputs), 'elements': {'H': {'name': 'hydrogen', 'mass': '%d/%d' % (m.numerator, m.denominator)}}},
+                {'mode': 'query', 'text': self._text(inputs)}]
 
     def judge(self, inputs, label, obs):
-        q = obs[0]
+        f, q = obs
+        t = self._text(inputs)
         if q.get('outcome') == 'panic' or q.get('render_panic'):
-            return True, '`%s` panics: %s' % (self._text(inputs), q.get('panic') or q.get('render_panic'))
-        return False, '`%s` -> %s' % (self._text(inputs), (q.get('display') or '')[:80])
+            return True, '`%s` panics: %s' % (t, q.get('panic') or q.get('render_panic'))
+        if f.get('outcome') != 'ok':
+            return True, 'substance_from_formula(%r): %s %s' % (t, f.get('outcome'), f.get('panic', ''))
+        m = Fraction(inputs['molar_mass'])
+        tail = t[1:]
+        wf = tail.isdigit() and tail.isascii() and int(tail) <= 2 ** 32 - 1
+        if not wf:
+            return f['some'], 'substance_from_formula(%r) is %s' % (t, 'accepted: %s' % f.get('molar_mass') if f['some'] else 'refused')
+        if not f['some']:
+            return True, 'substance_from_formula(%r) is refused' % t
+        got = Fraction(f['molar_mass']['value'])
+        return (got != int(tail) * m), 'substance_from_formula(%r) has molar mass %s, expected %s' % (t, got, int(tail) * m)
 
 
 class FormulaSum(Harness):
